@@ -49,3 +49,48 @@ OBLIGATIONS_C09 = [
         desc=".xz Stream decoder at Block initialisation for every needed amount and limit: the Block decoder is initialised only if the amount fits; otherwise MEMLIMIT_ERROR with no input consumed, nothing allocated, the needed amount reported by memconfig, limits below it refused, the exact amount accepted, and the next call resumes at the same point and initialises the Block decoder",
         bounds_q="all 64-bit usage/limit values"),
 ]
+# Block decoder body: payload accounting, Block Padding, Check field (also serves C03/C04/C06)
+BD_UNITS = [S + "common/common.c", S + "check/check.c", S + "common/block_util.c"]
+OBLIGATIONS.append(Obligation(
+    name="block_body_rules", src="blockdec.c", func="harness_block_body", units=BD_UNITS,
+    defs=["VLOOP_MEM", "VLOOP_MEM_ONECHECK"], qdefs=["PMAX=5", "CHKMAX=8", "CALLS=2"], tdefs=["PMAX=6", "CHKMAX=32", "CALLS=3"],
+    hdefs=["lzma_raw_decoder_init=vstub_raw_decoder_init", "lzma_check_init=vstub_check_init",
+           "lzma_check_update=vstub_check_update", "lzma_check_finish=vstub_check_finish"],
+    qunwind=19, tunwind=44, timeout_q=280, timeout_t=3000, mem_gb=12,
+    fp_restrict=["harness_block_body.function_pointer_call.1/block_decode",
+                 "block_decode.function_pointer_call.1/raw_code"],
+    functions=["lzma_block_decoder_init", "block_decode", "is_size_valid", "lzma_check_size",
+               "lzma_check_is_supported", "lzma_block_unpadded_size", "lzma_bufcpy"],
+    stubs=["filter chain (lzma_raw_decoder_init / next.code): payload is P compressed bytes decoding to U bytes; each call consumes/produces arbitrary amounts within its limits, STREAM_END exactly when both complete, otherwise returns only when it lacks needed input or room for pending output",
+           "lzma_check_init/update/finish: the check value over the produced bytes is an arbitrary byte string EXP; the harness verifies that exactly the produced bytes are fed, in order"],
+    desc="Block decoder (lzma_block_decoder_init + block_decode) on every Block body and every slicing: for "
+         "header sizes that are absent or right the result is OK while incomplete, STREAM_END exactly for a "
+         "complete body with zero Block Padding and matching Check field, DATA_ERROR exactly for non-zero "
+         "padding or a differing Check (unless None / unsupported / ignore_check); with a wrong declared "
+         "Compressed or Uncompressed Size STREAM_END is never returned; on success the Block ends exactly "
+         "after the Check field, actual sizes and the raw Check are handed back, exactly the produced bytes "
+         "were fed to the integrity check; no out-of-bounds access",
+    bounds_q="payload 1..5 compressed / 0..5 uncompressed bytes, every Check id with field size <= 8, Block version 0/1, 2 symbolic cut points for input and output + final call",
+    bounds_t="payload <= 6 bytes, Check field sizes <= 32 (ids 0..12), 3 cut points",
+    outside="the filter chain itself; Check ids with 64-byte fields; payloads beyond the bound (the accounting is by counters, not by content)"))
+# Index verification (index_hash.c) vs the one valid encoding of the decoded Blocks
+IH_UNITS = [S + "common/common.c", S + "common/vli_decoder.c", S + "common/vli_size.c", S + "check/check.c"]
+OBLIGATIONS.append(Obligation(
+    name="index_hash_exact", src="idxhash.c", func="harness_index_hash", units=IH_UNITS,
+    defs=["lzma_crc32=vstub_crc32"], qdefs=["KMAX=2", "VBITS=14", "CALLS=1"], tdefs=["KMAX=2", "VBITS=21", "CALLS=2"],
+    hdefs=["lzma_check_init=vstub_check_init2", "lzma_check_update=vstub_check_update2", "lzma_check_finish=vstub_check_finish2"],
+    qunwind=20, tunwind=28, timeout_q=400, timeout_t=3000, mem_gb=12,
+    unwindset=[("memcmp", "", 34), ("vstub_check_init2", "", 34), ("vstub_check_update2", "", 18), ("lzma_vli_decode", "", 10)],
+    functions=["lzma_index_hash_init", "lzma_index_hash_append", "lzma_index_hash_decode", "hash_append",
+               "lzma_index_hash_size", "lzma_vli_decode", "lzma_vli_size", "lzma_check_size"],
+    stubs=["lzma_crc32: additive chaining function seen by decoder and expected encoding alike (real CRC32: C14)",
+           "lzma_check_init/update/finish (the SHA-256 that summarises the Record list): exact recorder -- the 32-byte digest is the two (unpadded, uncompressed) pairs themselves, so digest equality is list equality"],
+    desc="Index verification of the stream decoder (lzma_index_hash_append x K, then lzma_index_hash_decode): "
+         "for every K<=2 Blocks with arbitrary sizes and EVERY byte string offered as Index, in every slicing: "
+         "STREAM_END exactly when the bytes are the specified encoding of those Blocks (indicator, count, "
+         "minimal VLIs, zero padding, CRC32), ending exactly after the CRC32; a proper prefix is OK "
+         "(incomplete) with all input consumed; any differing byte is never accepted; "
+         "lzma_index_hash_size() equals the size of that encoding; no out-of-bounds access",
+    bounds_q="K <= 2 Blocks, sizes < 2^14 (VLIs of 1-2 bytes), Index of <= 17 bytes + 1 extra byte, 2 symbolic cut points + final call",
+    bounds_t="sizes < 2^28 (VLIs of 1-4 bytes), 3 cut points",
+    outside="more than two Records (the digest abstraction holds two); sizes beyond the bound (the full-range VLI decoder is decided in C06 vli_decode obligations)"))
